@@ -179,7 +179,7 @@ def replay_history(cfg, hist, check_last_only=True):
             try:
                 if op[0] in ('run', 'runfail'):
                     want, want_exec = model.run(op[1], op[2], epoch, failing)
-                    got = lab.run_tasks([tasks[i] for i in op[1]], bust_cache=op[2], disable_progress=True, disable_top=True)
+                    got = lab.run_tasks([tasks[i] for i in op[1]], **({'bust_cache': True} if op[2] else {}), disable_progress=True, disable_top=True)     # an ordinary call does not mention bust_cache
                     if last:
                         gotd = {i: got[tasks[i]] for i in op[1] if tasks[i] in got}
                         if gotd != want:
